@@ -340,26 +340,33 @@ Fixpoint dot_suffixes (s : str) : res (list str) :=
 Definition S_HTTP := bs "http".  Definition S_HTTPS := bs "https".
 Definition S_WS := bs "ws".      Definition S_WSS := bs "wss".
 
+(* the if/else on the schema: (is_http, is_https, is_supported, request_type) *)
+Definition scheme_flags (schema raw_type : str) : bool * bool * bool * request_type :=
+  match schema with
+  | [] => (false, true, true, cpt_match_type raw_type)        (* "no ':' was found" *)
+  | _ =>
+      let is_http := str_eqb schema S_HTTP in
+      let is_https := negb is_http && str_eqb schema S_HTTPS in
+      let is_websocket := negb is_http && negb is_https && (str_eqb schema S_WS || str_eqb schema S_WSS) in
+      (is_http, is_https, is_http || is_https || is_websocket,
+       if is_websocket then RT_Websocket else cpt_match_type raw_type)
+  end.
+
+(* the strings that are hashed into source_hostname_hashes *)
+Definition source_hash_inputs (source_hostname : str) : res (option (list str)) :=
+  match source_hostname with
+  | [] => Ok None
+  | _ => rbind (dot_suffixes source_hostname) (fun l => Ok (Some (source_hostname :: l)))
+  end.
+
 Definition from_detailed_parameters (raw_type url schema hostname source_hostname : str)
            (third_party : bool) (original_url : str) : res request :=
-  let '(is_http, is_https, is_supported, request_type) :=
-    match schema with
-    | [] => (false, true, true, cpt_match_type raw_type)
-    | _ =>
-        let is_http := str_eqb schema S_HTTP in
-        let is_https := negb is_http && str_eqb schema S_HTTPS in
-        let is_websocket := negb is_http && negb is_https && (str_eqb schema S_WS || str_eqb schema S_WSS) in
-        (is_http, is_https, is_http || is_https || is_websocket,
-         if is_websocket then RT_Websocket else cpt_match_type raw_type)
-    end in
-  rbind (match source_hostname with
-         | [] => Ok None
-         | _ => rbind (dot_suffixes source_hostname) (fun l => Ok (Some (map hash (source_hostname :: l))))
-         end) (fun hashes =>
+  let fl := scheme_flags schema raw_type in
+  rbind (source_hash_inputs source_hostname) (fun inputs =>
   let url_lower_cased := lower_str url in
-  Ok {| request_type_of := request_type; is_http := is_http; is_https := is_https;
-        is_supported := is_supported; is_third_party := third_party;
-        url := url; hostname := hostname; source_hostname_hashes := hashes;
+  Ok {| request_type_of := snd fl; is_http := fst (fst (fst fl)); is_https := snd (fst (fst fl));
+        is_supported := snd (fst fl); is_third_party := third_party;
+        url := url; hostname := hostname; source_hostname_hashes := option_map (map hash) inputs;
         url_lower_cased := url_lower_cased; request_tokens := tokenize url_lower_cased ++ [0];
         original_url := original_url |}).
 
